@@ -869,6 +869,62 @@ class ObjModels:
 						work.append((s3, n + (1 if keep else 0)))
 			return out
 
+		def bmap_insert(ip, st, a):
+			"""BTreeMap::insert — std's contract: the value of an equal key is replaced (the old value is
+			returned), else the pair is added; keys are symbolic, their equality is decided by the solver"""
+			m_ = self.rd(ip, st, a[0])
+			items = list(m_[1])
+			out = []
+
+			def go(s_, j):
+				if j >= len(items):
+					self.wr(ip, s_, a[0], ("bmap", tuple(items) + ((a[1], a[2]),)))
+					out.append((s_, NONE))
+					return
+				for s2, eq in self.key_eq(s_, items[j][0], a[1]):
+					if eq:
+						new = list(items)
+						new[j] = (items[j][0], a[2])
+						self.wr(ip, s2, a[0], ("bmap", tuple(new)))
+						out.append((s2, some(items[j][1])))
+					else:
+						go(s2, j + 1)
+
+			go(st, 0)
+			return out
+
+		def bmap_contains(ip, st, a):
+			m_ = deref_val(ip, st, a[0])
+			key = deref_val(ip, st, a[1])
+			out = []
+
+			def go(s_, j):
+				if j >= len(m_[1]):
+					out.append((s_, False))
+					return
+				for s2, eq in self.key_eq(s_, m_[1][j][0], key):
+					if eq:
+						out.append((s2, True))
+					else:
+						go(s2, j + 1)
+
+			go(st, 0)
+			return out
+
+		def try_branch(ip, st, a):
+			r = a[0]
+			if r.variant == "Ok":
+				return Agg("ControlFlow", "Continue", (r.fields[0],))
+			return Agg("ControlFlow", "Break", (Agg("Result", "Err", (r.fields[0],)),))
+
+		def map_err(ip, st, a):
+			if a[0].variant == "Ok":
+				return [(st, a[0])]
+			c = ip.fn_value_call(a[1], [a[0].fields[0]])
+			if c is None:
+				raise MirError("Result::map_err with %r" % (a[1],))
+			return [(s2, Agg("Result", "Err", (r,))) for s2, r in ip.run_sub(st, c.fn, c.args)]
+
 		mk_map = one(lambda ip, st, a: Agg("MapIter", None, (a[0], a[1])))
 		mk_enum = one(lambda ip, st, a: Agg("Enumerate", None, (a[0], 0)))
 
@@ -884,6 +940,14 @@ class ObjModels:
 			"Option::or_else": opt_or_else,
 			"<Traverse as Iterator>::filter": one(lambda ip, st, a: Agg("Filter", None, (a[0], a[1]))),
 			"<Filter as Iterator>::count": filter_count,
+			"BTreeMap::new": one(lambda ip, st, a: ("bmap", ())),
+			"BTreeMap::insert": bmap_insert,
+			"BTreeMap::contains_key": bmap_contains,
+			"<object::IterMapped as IntoIterator>::into_iter": one(lambda ip, st, a: a[0]),
+			"core::str::parse": one(lambda ip, st, a: Agg("Result", "Ok", (deref_val(ip, st, a[0]),))),
+			"Result::map_err": map_err,
+			"<Result as Try>::branch": one(try_branch),
+			"<Result as FromResidual>::from_residual": one(lambda ip, st, a: Agg("Result", "Err", (a[0].fields[0],))),
 			"<array::IterMapped as Iterator>::map": mk_map,
 			"<std::slice::Iter as Iterator>::map": mk_map,
 			"<Enumerate as Iterator>::map": mk_map,
@@ -1928,6 +1992,105 @@ class Explorer:
 				if budget and time.time() - t0 > budget:
 					self.timed_out = True
 					return
+		self.explore_convert_map(min(n_max, 3), budget, base, prove_eq, t0)
+
+	def explore_convert_map(self, n_max, budget, base, prove_eq, t0):
+		"""C11: `BTreeMap<K, V>::try_from_json_at` for K = String, V = bool — the MIR of the conversion
+		and of `Object::iter_mapped` / `object::IterMapped::next`, on null, true and every object of
+		<= n_max entries with SYMBOLIC keys (which keys coincide is decided by the solver: that decides
+		which entries replace which in the map) and values from {true, false, null, [null]}; symbolic
+		offset, code map read through vol() constrained to the C05 layout. Oracle: a non-object gives Err
+		at `base` (expected OBJECT); else the entries are converted in order, the first non-boolean value
+		gives Err at ITS offset E(i) + 2 (expected BOOLEAN) — also when its key repeats an earlier one —
+		and otherwise Ok of the map in which a later entry of an equal key replaces the earlier value."""
+		prog = self.prog
+		fn_map = fn_bool = None
+		for f in prog.fns:
+			if re.match(r"^try_from::<impl at src/try_from\.rs:[0-9: ]+>::try_from_json_at\(_1: &Value, _2: &CodeMap, _3: usize\) -> Result<BTreeMap<K, V>", f.header):
+				fn_map = f
+			if re.match(r"^try_from::<impl at src/try_from\.rs:[0-9: ]+>::try_from_json_at\(_1: &Value, _2: &CodeMap, _3: usize\) -> Result<bool, ", f.header):
+				fn_bool = f
+		if fn_map is None or fn_bool is None:
+			raise MirError("BTreeMap<K, V>::try_from_json_at not found in the MIR dump")
+		for k in ("<V as try_from::TryFromJson>::try_from_json_at", "<V as TryFromJson>::try_from_json_at"):
+			self.ip.models[k] = lambda ip, st, a: [(st, CallFn(fn_bool, list(a)))]
+		NULL = Agg("Value", "Null", ())
+		ITEMS = {"t": Agg("Value", "Boolean", (True,)), "f": Agg("Value", "Boolean", (False,)), "n": NULL, "a": Agg("Value", "Array", (("vec", (NULL,)),))}
+		KIND = {"t": "Boolean", "f": "Boolean", "n": "Null", "a": "Array"}
+		VOLC = {"t": 1, "f": 1, "n": 1, "a": 2}
+		shapes = [("top", "t"), ("top", "n")] + [("obj", "".join(x)) for n in range(n_max + 1) for x in itertools.product("tfna", repeat=n)]
+		for kind, shape in shapes:
+			st = State()
+			st.frames.append(Frame(None, {1: Agg("Object", None, (("vec", ()), ("imap", ()))), 9: ("codemap",)}))
+			st.aux["nk"] = 0
+			hist = [["BTreeMap<String,bool>::try_from_json_at", [kind, shape]]]
+			if kind == "top":
+				st.frames[0].locals[5] = ITEMS[shape]
+				for s2, r in self.call(st, fn_map, [Ref(0, 5, ()), Ref(0, 9, ()), base]):
+					self.pairs += 1
+					good = isinstance(r, Agg) and r.variant == "Err" and r.fields[0].fields[1].fields[0] == Agg("const", "KindSet::OBJECT", ()) and \
+					       r.fields[0].fields[1].fields[1] == Agg("Kind", KIND[shape], ()) and prove_eq(r.fields[0].fields[0], base, [])
+					if not good:
+						self.violation(s2, hist, "C11:conversion-error-at-the-offset-of-the-offending-value", "non-object at base: %r" % (r,))
+				continue
+			states = [st]
+			for j, c in enumerate(shape):
+				nxt = []
+				for s in states:
+					k = s.aux["nk"]
+					s.aux["nk"] = k + 1
+					while len(self.keys.vars) <= k:
+						self.keys.fresh()
+					for s2, _ in self.call(s, prog.by["push"], [Ref(0, 1, ()), ("key", k), ITEMS[c]]):
+						nxt.append(s2)
+				states = nxt
+			E = []
+			facts = []
+			at = base + 1
+			for c in shape:
+				E.append(at)
+				facts.append(self.models.VOL(at + 2) == VOLC[c])
+				at = at + 2 + VOLC[c]
+			bad = next((i for i, c in enumerate(shape) if c not in "tf"), None)
+			for s in states:
+				s.frames[0].locals[5] = Agg("Value", "Object", (s.frames[0].locals[1],))
+				for s2, r in self.call(s, fn_map, [Ref(0, 5, ()), Ref(0, 9, ()), base]):
+					self.pairs += 1
+					self.paths += 1
+					if bad is not None:
+						good = isinstance(r, Agg) and r.variant == "Err"
+						if good:
+							m_ = r.fields[0]
+							good = m_.fields[1].fields[0] == Agg("const", "KindSet::BOOLEAN", ()) and m_.fields[1].fields[1] == Agg("Kind", KIND[shape[bad]], ()) and prove_eq(m_.fields[0], E[bad] + 2, facts)
+						if not good:
+							self.violation(s2, hist, "C11:conversion-error-at-the-offset-of-the-offending-value", "entry %d: yielded %r" % (bad, r))
+						continue
+					# expected map: later entries replace the value of an equal earlier key
+					work = [(s2, 0, [])]
+					while work:
+						s3, j, acc = work.pop()
+						if j >= len(shape):
+							got = None
+							if isinstance(r, Agg) and r.variant == "Ok" and isinstance(r.fields[0], tuple) and r.fields[0][0] == "bmap":
+								got = [(key_of(k_), v_) for k_, v_ in r.fields[0][1]]
+							if got != acc:
+								self.violation(s3, hist, "C11:conversion-of-well-typed-object", "yielded %r, expected %r (key variable, value)" % (r, acc))
+							continue
+
+						def place(s4, i, acc=acc, j=j):
+							if i >= len(acc):
+								work.append((s4, j + 1, acc + [(j, shape[j] == "t")]))
+								return
+							for s5, eq in self.keys.split(s4, "eq", acc[i][0], j):
+								if eq:
+									work.append((s5, j + 1, acc[:i] + [(acc[i][0], shape[j] == "t")] + acc[i + 1:]))
+								else:
+									place(s5, i + 1)
+
+						place(s3, 0)
+			if budget and time.time() - t0 > budget:
+				self.timed_out = True
+				return
 
 	def explore_fragments(self, level, budget):
 		"""C11: fragment lookup by index and the traversal. For every value of the stated shapes (nested
@@ -2429,6 +2592,35 @@ def conv_expected(v, off, depth):
 	return ("Ok", acc)
 
 
+def replay_convert_map(native, kind, shape, keyvals):
+	"""BTreeMap::<String, bool>::try_from_json_at on the REAL value and code map of the parsed document
+	[[0],V] (V at offset 3), keys instantiated with the solver's model, against the oracle"""
+	import subprocess
+
+	ITEM = {"t": "true", "f": "false", "n": "null", "a": "[null]"}
+	KIND = {"t": "Boolean", "f": "Boolean", "n": "Null", "a": "Array"}
+	if kind == "top":
+		text = ITEM[shape]
+		want = "ERR 3 OBJECT %s" % KIND[shape]
+	else:
+		keys = [chr(keyvals[i] if i < len(keyvals) else 0x41 + i) for i in range(len(shape))]
+		text = "{" + ",".join("%s:%s" % (json.dumps(k), ITEM[c]) for k, c in zip(keys, shape)) + "}"
+		at = 4
+		want = None
+		m = {}
+		for k, c in zip(keys, shape):
+			if c not in "tf":
+				want = "ERR %d BOOLEAN %s" % (at + 2, KIND[c])
+				break
+			m[k] = (c == "t")
+			at += 2 + (2 if c == "a" else 1)
+		if want is None:
+			want = ("OK " + ",".join("%s=%s" % (k, str(v).lower()) for k, v in sorted(m.items()))).strip()
+	p = subprocess.run([native, "convmap", text], stdout=subprocess.PIPE, stderr=subprocess.DEVNULL, timeout=60)
+	got = p.stdout.decode(errors="replace").strip()
+	return dict(depth="map", value=text, kind=kind, shape=shape, got=got, want=want, reproduced=(got != want))
+
+
 def replay_convert(native, depth, text):
 	"""Vec::<bool> / Vec::<Vec<bool>>::try_from_json_at on the REAL value and REAL code map of the
 	parsed document [[0],V] (V at offset 3), against the recursive oracle"""
@@ -2605,7 +2797,19 @@ def main():
 					if r["reproduced"]:
 						bad.append(r)
 			out["translator_validation"] = dict(values=nval, disagreements=bad[:3])
+			for kind, shape in [("top", "t"), ("top", "n")] + [("obj", "".join(x)) for n in range(3) for x in itertools.product("tfna", repeat=n)]:
+				for kv in ([0x61, 0x62], [0x61, 0x61]):
+					r = replay_convert_map(native, kind, shape, kv)
+					nval += 1
+					if r["reproduced"]:
+						bad.append(r)
+			out["translator_validation"] = dict(values=nval, disagreements=bad[:3])
 			for v in ex.violations:
+				if str(v["history"][0][0]).startswith("BTreeMap"):
+					kind, shape = v["history"][0][1]
+					kv = list(v.get("keys") or [])
+					v["native"] = replay_convert_map(native, kind, shape, kv)
+					continue
 				depth, text = v["history"][0][1]
 				v["native"] = replay_convert(native, depth, text)
 			if bad and not ex.violations:
